@@ -7,7 +7,8 @@
    allows, standing inside the attack window on a cell that is not masked. *)
 From Coq Require Import ZArith List Bool Arith Lia.
 From Abm Require Import Base.Sx Grid.Overlap Grid.Grid Grid.Move Grid.Attack Grid.Vis Grid.AttackRun
-  Grid.AttackChk Proofs.Grid_proofs Proofs.Move_proofs Proofs.Attack_proofs.
+  Grid.AttackChk Proofs.Grid_proofs Proofs.Move_proofs Proofs.Attack_proofs Proofs.GridChk_proofs
+  Proofs.AttackLim_proofs.
 Import ListNotations.
 Open Scope Z_scope.
 
@@ -79,6 +80,103 @@ Theorem C11_state_consistent : forall vis s cf att o act, ginv s ->
   end.
 Proof. exact process_attack_inv. Qed.
 Print Assumptions C11_state_consistent.
+
+(* ---- limits ------------------------------------------------------------------------------------ *)
+(* binary: at most n agents per step *)
+Theorem C11_binary_limit : forall vis s cf att p o n st hits o',
+  0 <= n -> det_binary vis s cf att p o n = AOk (st, hits) o' -> Z.of_nat (length hits) <= n.
+Proof. exact det_binary_limit. Qed.
+Print Assumptions C11_binary_limit.
+
+(* encoding-based (the action is a dict: duplicate-free keys, non-negative counts): per encoding at
+   most the requested number, and no agent of an encoding the action does not name *)
+Theorem C11_encoding_limits : forall vis s cf att p o l st hits o',
+  NoDup (map fst l) -> Forall (fun kv => 0 <= snd kv) l ->
+  det_encoding vis s cf att p o l = AOk (st, hits) o' ->
+  (forall e num, In (e, num) l -> Z.of_nat (length (filter (fun v => enc_of s v =? e) hits)) <= num) /\
+  (forall v, In v hits -> In (enc_of s v) (map fst l)).
+Proof. exact det_encoding_limits. Qed.
+Print Assumptions C11_encoding_limits.
+
+(* selective: per window cell d at most the count the action holds at d's scan position (widx) *)
+Theorem C11_selective_limits : forall vis s cf att p o l st hits o',
+  ginv s -> att_pos s att = Some p -> Forall (fun n => 0 <= n) l ->
+  det_selective vis s cf att p o l = AOk (st, hits) o' ->
+  forall d, In d (window (c_range cf)) -> hits_at s att hits d <= aimed_at cf (ASelective l) d.
+Proof. exact det_selective_limits. Qed.
+Print Assumptions C11_selective_limits.
+
+(* ---- no agent is hit twice unless stacked attacks are enabled ------------------------------------ *)
+Theorem C11_binary_nodup : forall vis s cf att p o n st hits o',
+  ginv s -> c_stacked cf = false ->
+  det_binary vis s cf att p o n = AOk (st, hits) o' -> NoDup hits.
+Proof. exact det_binary_nodup. Qed.
+Print Assumptions C11_binary_nodup.
+
+Theorem C11_encoding_nodup : forall vis s cf att p o l st hits o',
+  ginv s -> c_stacked cf = false -> NoDup (map fst l) ->
+  det_encoding vis s cf att p o l = AOk (st, hits) o' -> NoDup hits.
+Proof. exact det_encoding_nodup. Qed.
+Print Assumptions C11_encoding_nodup.
+
+Theorem C11_selective_nodup : forall vis s cf att p o l st hits o',
+  ginv s -> att_pos s att = Some p -> Forall (fun n => 0 <= n) l -> c_stacked cf = false ->
+  det_selective vis s cf att p o l = AOk (st, hits) o' -> NoDup hits.
+Proof. exact det_selective_nodup. Qed.
+Print Assumptions C11_selective_nodup.
+
+(* ---- ammunition ------------------------------------------------------------------------------------ *)
+(* the returned hit list is no longer than the ammunition; afterwards the attacker holds exactly
+   ammo - hits (never negative); nobody else's ammunition changes *)
+Theorem C11_ammunition : forall vis s cf att o act st hits s' o' a,
+  agent s att = Some a ->
+  process_attack vis s cf att o act = POk st hits s' o' ->
+  (forall am, a_ammo a = Some am -> Z.of_nat (length hits) <= am) /\
+  (forall j b, agent s j = Some b ->
+     exists b', agent s' j = Some b' /\
+       a_ammo b' = if Nat.eqb j att
+                   then option_map (fun am => am - Z.of_nat (length hits)) (a_ammo b)
+                   else a_ammo b).
+Proof. exact process_attack_ammo. Qed.
+Print Assumptions C11_ammunition.
+
+(* ---- with full accuracy no eligible target is skipped --------------------------------------------- *)
+(* accuracy 1 and uniform draws in [0,1]: the criteria filter keeps exactly the candidates that are
+   not the attacker, active and allowed by the mapping *)
+Theorem C11_full_accuracy_filter : forall s cf att o cands l o',
+  c_accuracy cf = HD -> Forall (fun u => u <= HD) (o_unif o) ->
+  filter_criteria s cf att o cands = AOk l o' ->
+  l = filter (fun v => negb (Nat.eqb v att) &&
+                       match agent s v with
+                       | Some b => a_active b && memZ (a_enc b) (c_mapping cf)
+                       | None => false end) cands.
+Proof. exact filter_criteria_full. Qed.
+Print Assumptions C11_full_accuracy_filter.
+
+(* hence the number of hits before the ammunition filter is the checker's expected_full: computed
+   from the eligible agents alone (min(requested, available), or requested when stacked) *)
+Theorem C11_binary_full : forall vis s cf att p o n st hits o',
+  ginv s -> att_pos s att = Some p -> c_accuracy cf = HD -> Forall (fun u => u <= HD) (o_unif o) ->
+  0 <= n -> det_binary vis s cf att p o n = AOk (st, hits) o' ->
+  Z.of_nat (length hits) = expected_full vis s cf att (ABinary n).
+Proof. exact det_binary_full. Qed.
+Print Assumptions C11_binary_full.
+
+Theorem C11_encoding_full : forall vis s cf att p o l st hits o',
+  ginv s -> att_pos s att = Some p -> c_accuracy cf = HD -> Forall (fun u => u <= HD) (o_unif o) ->
+  Forall (fun kv => 0 <= snd kv) l ->
+  det_encoding vis s cf att p o l = AOk (st, hits) o' ->
+  Z.of_nat (length hits) = expected_full vis s cf att (AEncoding l).
+Proof. exact det_encoding_full. Qed.
+Print Assumptions C11_encoding_full.
+
+Theorem C11_selective_full : forall vis s cf att p o l st hits o',
+  ginv s -> att_pos s att = Some p -> c_accuracy cf = HD -> Forall (fun u => u <= HD) (o_unif o) ->
+  Forall (fun n => 0 <= n) l ->
+  det_selective vis s cf att p o l = AOk (st, hits) o' ->
+  Z.of_nat (length hits) = expected_full vis s cf att (ASelective l).
+Proof. exact det_selective_full. Qed.
+Print Assumptions C11_selective_full.
 
 (* the code before the repair numbered the cells column by column: refuted on a 1x2 grid *)
 Definition f3_state : gstate :=
